@@ -59,7 +59,7 @@ func gen(g *mon.Gen) {
 					if client != clientx.Serial || g.Thorough() {
 						g.Emit(&Case{Client: client, FC: fc, Size: size, Exc: exc, Mode: "pairs", Seed: rng.Int63()})
 					}
-					for k := 0; k < g.Pick(1, 6); k++ {
+					for k := 0; k < g.Pick(1, 30); k++ {
 						g.Emit(&Case{Client: client, FC: fc, Size: size, Exc: exc, Mode: "random", Seed: rng.Int63()})
 					}
 					if !exc && size == 0 && (client != clientx.Serial || g.Thorough()) {
